@@ -595,7 +595,7 @@ func runC03(c *Ctx) {
 		src string
 		ex  int
 	}{{"nil", 1}, {"Fs(1)", 0}, {"filter(Ints, {# > 1})", 0}, {"map(Ints, {# + 1})", 0}, {"MSI[1]", 0}, {"Ints[\"a\"]", 0},
-		{"My == 1", 0}, {"map(Ints, {nil})", 0}, {"Any?.x", 1}, {"1 + 2", 2}, {"I8 + 1", 2}, {"F32 * 2", 3}, {"I", 3}, {"Str", 2}, {"B", 1}, {"I", 1}} {
+		{"My == 1", 0}, {"map(Ints, {nil})", 0}, {"Ff(+U64)", 0}, {"Fi(F64 + 1)", 0}, {"Arr[:]", 0}, {"len(Arr[1:2])", 0}, {"{(1): 2}", 0}, {"MSI[:]", 0}, {"F32 in MII", 0}, {"Any?.x", 1}, {"1 + 2", 2}, {"I8 + 1", 2}, {"F32 * 2", 3}, {"I", 3}, {"Str", 2}, {"B", 1}, {"I", 1}} {
 		cases = append(cases, c03Case{env: envs[0], src: s.src, expect: s.ex, static: false, goal: nil})
 	}
 
@@ -838,7 +838,9 @@ func c03TypeErrKey(src, rerr string) string {
 	case strings.Contains(rerr, "interface conversion"):
 		return "interface-conversion"
 	case strings.Contains(rerr, "reflect: Call using"):
-		return "call-argument"
+		return "retyped-non-literal-argument"
+	case strings.Contains(rerr, "slice of unaddressable array"):
+		return "slice-of-array"
 	}
 	return "other"
 }
